@@ -379,9 +379,24 @@ def gen_case(rng, idx):
         else:
             mode = rng.choice(['fail', 'fail', 'no-vnode', 'extras'])
 
+        # vnodes of different sizes (a job whose chunks differ): the pilot
+        # works with ONE node size, so it must either refuse to start or offer
+        # no node with more cores than its vnode has
+        hetero = dict()
+        if src == 'PBSPRO-qstat' and len(names) >= 2 and \
+                rng.random() < 0.6:
+            small = rng.choice(names[1:])
+            hetero = {n_: C for n_ in names}
+            hetero[small] = rng.choice([max(1, C // 2), max(1, C // 4)])
+            if hetero[small] != C:
+                extra['vnode_cores'] = hetero
+                feat.add('pbspro-vnodes-of-different-sizes')
+                may.append('pbspro: vnodes of different sizes')
+            else:
+                hetero = dict()
         chunks = list()
         for name in names:
-            c = '(%s:ncpus=%d' % (name, C)
+            c = '(%s:ncpus=%d' % (name, hetero.get(name, C))
             if mode == 'extras':
                 c += ':ngpus=%d' % max(G, 1)
             chunks.append(c + ')')
@@ -799,6 +814,26 @@ def judge(case, obs, res):
     every = [('node_list', n) for n in nl] + \
             [('agent_node_list', n) for n in al] + \
             [('service_node_list', n) for n in sl]
+
+    vc = case['extra'].get('vnode_cores')
+    if vc:
+        # different vnode sizes, and the RM started anyway
+        res.count('different_vnode_sizes_offered')
+        for where, node in every:
+            have = vc.get(node.get('name'))
+            n_c  = len(node.get('cores') or [])
+            if have is not None and n_c > have * exp['smt']:
+                bad('node-offered-with-more-cores-than-allocated/%s' % src,
+                    '%s %s is offered with %d cores, its vnode has ncpus=%d'
+                    % (where, node.get('name'), n_c, have))
+            # one node size is what the pilot tells its scheduler and
+            # launchers: every entry has to have it
+            elif n_c != info.get('cores_per_node'):
+                bad('node-size-differs-from-cores-per-node/%s' % src,
+                    '%s %s has %d cores, info.cores_per_node is %s (vnodes: '
+                    '%s)' % (where, node.get('name'), n_c,
+                             info.get('cores_per_node'), vc))
+        return
 
     C, G   = exp['cores'], exp['gpus']
     bc, bg = exp['bc'], exp['bg']
